@@ -103,11 +103,35 @@ func C08(c *Ctx) {
 	failed := func(atoms []string) bool {
 		return has(atoms, "SendAccounting()!=nil") || has(atoms, "!SendAccounting()==nil") || has(atoms, "sendAccountingStop()!=nil") || has(atoms, "!sendAccountingStop()==nil")
 	}
-	for _, name := range []string{"StartSession", "StopSession", "sendInterimUpdate", "sendAccountingStopSync", "recoverOrphanedSessions"} {
-		f := c.fn(pkg, "AccountingManager", name)
-		if f == nil {
+	// the functions to simulate: the entry points, plus every manager function or closure that itself contains a send
+	// (derived from the code, so a sender helper that is renamed, split or written into a goroutine body stays covered);
+	// processPendingRecord re-sends under the retry budget and is O9's
+	var senders []*ssa.Function
+	seenSender := map[*ssa.Function]bool{}
+	for _, name := range []string{"StartSession", "StopSession", "recoverOrphanedSessions"} {
+		if f := c.fn(pkg, "AccountingManager", name); f != nil && !seenSender[f] {
+			seenSender[f] = true
+			senders = append(senders, f)
+		}
+	}
+	for _, f := range c.moduleFuncs() {
+		if f.Pkg != sp || flow.RecvTypeName(f) != "AccountingManager" || f.Name() == "processPendingRecord" {
 			continue
 		}
+		for _, fn := range flow.WithAnon(f) {
+			if seenSender[fn] {
+				continue
+			}
+			for _, call := range flow.Calls(fn) {
+				if sendPred(call) {
+					seenSender[fn] = true
+					senders = append(senders, fn)
+					break
+				}
+			}
+		}
+	}
+	for _, f := range senders {
 		outs := spec.Run(f, nil)
 		bad := ""
 		n := 0
@@ -355,8 +379,10 @@ func C08(c *Ctx) {
 					if errOrigin(bo.X) == "SendAccounting()" && isNilConst(bo.Y) && ((bo.Op == token.EQL) == ft.Pol) {
 						ok = true // success
 					}
-					if bo.Op == token.GEQ && ft.Pol && strings.HasSuffix(flow.FieldOwner(bo.X), "PendingAcctRecord.RetryCount") && strings.HasSuffix(flow.FieldOwner(bo.Y), "AccountingConfig.MaxRetries") {
-						ok = true // budget exhausted
+					if flow.Holds(ft, token.GEQ,
+						func(v ssa.Value) bool { return strings.HasSuffix(flow.FieldOwner(v), "PendingAcctRecord.RetryCount") },
+						func(v ssa.Value) bool { return strings.HasSuffix(flow.FieldOwner(v), "AccountingConfig.MaxRetries") }) {
+						ok = true // budget exhausted (RetryCount >= MaxRetries, in any spelling)
 					}
 				}
 			}
@@ -377,7 +403,12 @@ func C08(c *Ctx) {
 }
 
 // errOrigin names the call whose (error) result v is: "SendAccounting()", "sendAccountingStop()", ...
-func errOrigin(v ssa.Value) string {
+func errOrigin(v ssa.Value) string { return errOriginD(v, 0) }
+
+func errOriginD(v ssa.Value, depth int) string {
+	if depth > 8 {
+		return "" // loop-carried φ
+	}
 	switch x := v.(type) {
 	case *ssa.Call:
 		if g := x.Call.StaticCallee(); g != nil {
@@ -395,7 +426,7 @@ func errOrigin(v ssa.Value) string {
 			if isNilConst(e) {
 				continue
 			}
-			n := errOrigin(e)
+			n := errOriginD(e, depth+1)
 			if n == "" || (s != "" && s != n) {
 				return ""
 			}
@@ -411,7 +442,7 @@ func errOrigin(v ssa.Value) string {
 					if isNilConst(st.Val) {
 						continue
 					}
-					n := errOrigin(st.Val)
+					n := errOriginD(st.Val, depth+1)
 					if n == "" || (s != "" && s != n) {
 						return ""
 					}
@@ -530,8 +561,11 @@ func c08Attributes(c *Ctx) {
 				fo := flow.FieldOwner(bo.X)
 				switch {
 				case strings.HasSuffix(fo, "AcctRequest.StatusType"):
-				case strings.HasSuffix(fo, "AcctRequest."+w.field) && bo.Op == token.GTR && ft.Pol:
-					if k, isK := constInt(bo.Y); !isK || k != 0xFFFFFFFF {
+				case strings.HasSuffix(fo, "AcctRequest."+w.field):
+					// field > 0xFFFFFFFF (or the same test spelt >= 0x100000000, or negated <=)
+					op, _, y, isCmp := flow.CmpOf(ft)
+					k, isK := constInt(y)
+					if !isCmp || !isK || !((op == token.GTR && k == 0xFFFFFFFF) || (op == token.GEQ && k == 0x100000000)) {
 						guardOK = false
 					}
 				case errOrigin(bo.X) != "":
